@@ -135,6 +135,16 @@ func (a *AcctRequest) MarshalBinary() ([]byte, error) {
 	if err := a.Validate(); err != nil {
 		return nil, err
 	}
+	switch {
+	case a.User.Len() > maxUint8Len:
+		return nil, errFieldTooLong("acctRequest", "user", a.User.Len(), maxUint8Len)
+	case a.Port.Len() > maxUint8Len:
+		return nil, errFieldTooLong("acctRequest", "port", a.Port.Len(), maxUint8Len)
+	case a.RemAddr.Len() > maxUint8Len:
+		return nil, errFieldTooLong("acctRequest", "rem-addr", a.RemAddr.Len(), maxUint8Len)
+	case len(a.Args) > maxUint8Len:
+		return nil, errFieldTooLong("acctRequest", "arg count", len(a.Args), maxUint8Len)
+	}
 	buf := make([]byte, 0, AcctRequestLen)
 	buf = append(buf, uint8(a.Flags))
 	buf = append(buf, uint8(a.Method))
@@ -299,6 +309,12 @@ func (a *AcctReply) MarshalBinary() ([]byte, error) {
 	// validate
 	if err := a.Validate(); err != nil {
 		return nil, err
+	}
+	switch {
+	case a.ServerMsg.Len() > maxUint16Len:
+		return nil, errFieldTooLong("acctReply", "server-msg", a.ServerMsg.Len(), maxUint16Len)
+	case a.Data.Len() > maxUint16Len:
+		return nil, errFieldTooLong("acctReply", "data", a.Data.Len(), maxUint16Len)
 	}
 	buf := make([]byte, 0, AcctReplyLen)
 	buf = appendUint16(buf, a.ServerMsg.Len())
